@@ -2784,6 +2784,10 @@ def c20(tier):
                                                      small + " " * (LIMIT - len(small)), small + " " * (LIMIT - len(small) - 1),
                                                      small + " " * (2000001 - len(small)), small + " " * (2 * 1000 * 1024 - len(small)),
                                                      gen.random_grid(r, 150, 120, "-|+.' ab", 0.7)[:20000]]
+    # bodies from the shared pool (control characters, hostile legends, every script: whatever the body is, the answer is the
+    # library's conversion of exactly these bytes)
+    corpus += [t for t in gen.universe(r, 60) if len(t) < 20000]
+    corpus += ["a\x1bb --> \x01", "+--+\x0c\n|\x7f |\n+--+", "x\u0085y", "\x00"]
     convert, convert_many = lib_converter()
     convert_many([(t, {}) for t in corpus])
     lib_sha = {t: shells.sha(convert(t, {}).encode("utf-8")) for t in corpus}
